@@ -6,12 +6,14 @@ import WzVerif.Lemmas.Response
 namespace Wz.C05L
 open Wz Hdr Resp
 
-/-- events that neither close anything nor replace / freeze the body -/
+/-- events that neither close anything nor replace the body (`freeze()` buffers it and, as
+repaired, keeps its close) -/
 def quiet : REv → Bool
   | .callOnClose _ => true
   | .getData => true
   | .makeSequence => true
   | .take _ => true
+  | .freeze _ => true
   | _ => false
 
 /-- how often callback / close action `e` is registered by the events -/
@@ -100,7 +102,20 @@ theorem quiet_step (s : St) (ev : REv) (hq : quiet ev = true) :
     cases held with
     | rawStream c sh rest => cases sh <;> simp [nextEv, isClosing, expectedClose, regs]
     | _ => simp [nextEv, isClosing, expectedClose, regs]
-  | freeze _ => cases hq
+  | freeze etag =>
+    obtain ⟨r, cfg, held, sent, log, wsgi⟩ := s
+    refine ⟨rfl, rfl, rfl, fun h => ?_, fun e => ?_⟩
+    · simp only [nextEv]
+      cases r.body.kind with
+      | seq => exact h
+      | stream c => exact isClosing_detach _ _ h
+    · simp only [nextEv, regs, Nat.add_zero, expectedClose]
+      cases hk : r.body.kind with
+      | seq => simp
+      | stream c =>
+        cases c with
+        | true => simp only [List.count_append, List.count_cons, List.count_nil]; omega
+        | false => simp
   | setData _ => cases hq
   | close => cases hq
   | getWsgi _ _ _ => cases hq
